@@ -501,6 +501,9 @@ register(PropertySpec(
              "while a child's stream is iterated, the binding it was started under is not modified in the loop body"),
         Rule("ROW-FRESH", _lazy("extra", "rule_row_fresh"), 1,
              "a row extended and yielded in a loop is created in that same loop (no aliasing between rows)"),
+        Rule("PRODUCT-CORRELATED", binding.rule_product_correlated, 1,
+             "several expressions bound into one row are evaluated one under the binding of the other, never as independent "
+             "streams multiplied by a product combinator"),
         Rule("PRODUCT", binding.rule_product, 1,
              "the combinator completing unbound selected variables is of class all-combinations (itertools.product / "
              "recursive nested iteration), not lock-step (zip, islice, lone next)"),
@@ -527,6 +530,9 @@ register(PropertySpec(
              "not by its parent"),
         Rule("ROW-FRESH", _lazy("extra", "rule_row_fresh"), 1,
              "each element's row is a fresh copy of the parent's binding, created in the per-element loop"),
+        Rule("PRODUCT-CORRELATED", _lazy("binding", "rule_product_correlated"), 1,
+             "(shared with C02/C11) a parent and its flattened attribute used as two arguments / selected expressions stay "
+             "correlated"),
         Rule("BIND-KEEP", binding.rule_bind_keep, 12,
              "each yielded binding extends the child's binding for that element (DomainMapping._evaluate__), and the "
              "query descriptor keeps everything a selected expression bound (parent correlation when the parent is "
@@ -572,12 +578,15 @@ register(PropertySpec(
     id="C11",
     title="rule inference builds one instance per satisfying binding, from that binding",
     rules=[
-        Rule("INFER-THREAD", infer_rules.rule_infer_thread, 2,
+        Rule("INFER-THREAD", infer_rules.rule_infer_thread, 1,
              "the evaluation sites of constructor arguments receive the current binding (BIND-THREAD instances)"),
         Rule("INFER-ONE-PER-BINDING", infer_rules.rule_infer_one, 3,
              "the construction self._type_(**…) runs exactly once per argument combination (counting domain over the "
              "CFG), and for an inferred variable the registry is never consulted instead (abstract interpretation with "
              "_is_inferred_ = True)"),
+        Rule("PRODUCT-CORRELATED", _lazy("binding", "rule_product_correlated"), 1,
+             "the arguments of a rule head that share a variable the body leaves unbound take their values from the same "
+             "assignment: they are bound sequentially, not as independent streams multiplied"),
         Rule("INFER-NOT-TRUTH", infer_rules.rule_infer_not_truth, 4,
              "abstract interpretation of the output handler for a non-predicate variable: the row of a constructed instance is "
              "produced whatever the instance's truthiness"),
